@@ -311,6 +311,10 @@ impl Matrix {
             // automatically determine number of columns
             self.nrows = nrows as usize;
             self.ncols = size / nrows as usize;
+        } else if nrows == 0 && ncols == 0 && size == 0 {
+            // the empty matrix keeps its 0 x 0 shape (element-wise results of `Matrix::empty()`)
+            self.nrows = 0;
+            self.ncols = 0;
         } else {
             panic!("invalid shape");
         }
